@@ -395,6 +395,14 @@ def check(repo):
                                "persist_lines": sorted(cfg.nodes[m].line for m in metas)})
 
     _check_loader_and_echo(repo, r3, states)
+    bad_w, n_w = F.writers_persist_unconditionally(repo, F.SRV_FM)
+    r3.require(n_w >= 3, repo.module(F.SRV_FM).functions.get("write_service_meta") or svc.methods["__init__"], "artifact writers found", "only %d artifact writers found in the server file manager" % n_w)
+    for wfi, why in bad_w:
+        r3.fail_fn(wfi, wfi.node, "%s skips the write" % wfi.name,
+                   "%s returns without writing its argument although the service directory exists (path taken under [%s]): the handler acknowledges the request, but what "
+                   "was accepted is not what is on disk and a later connection / search is served from the old content" % (wfi.name, why))
+    if not bad_w:
+        r3.ok({"file_manager": F.SRV_FM, "writers": n_w, "rule": "write on every path but 'directory missing'"})
     _check_artifact_names(repo, r3)
 
     # ------------------------------------------------------------------ R10.6 a closed connection cannot overwrite its successor's state
